@@ -19,9 +19,11 @@ func init() {
 		Explanation: "Decides the structure that keeps event-connection bytes exactly-once and in order: every write to the event connection after the handshake happens while the Session.writing flag is held (acquired on the CAS-success edge) and the flag is released on every exit, with the send loop woken after a fast-path release; " +
 			"the partial-write loop advances its cursor by exactly the syscall result, passes &data[cursor]/len-cursor, never advances on EAGAIN and ends successfully only when everything was written; " +
 			"the receive window is used consistently: the callback and the grow-copy see exactly readBuffer[readStartOff:readEndOff], the read syscall appends at readEndOff, the grow step copies the pending window before it resets the offsets, commitRead advances by n and resets/shrinks only when start==end; " +
-			"the race and non-race dispatcher files and the two epoll files are the same program modulo the listed differences. NOT decided: exactly-once/in-order as such, EAGAIN/EPOLLOUT races, event boundaries, kernel behaviour.",
-		RuleText: "R18.1 must-held dataflow of the CAS flag Session.writing at every call reaching eventConn.write; R18.2 must-pass-through after each release outside the send loop; R18.3 shape of the accumulator phi of the write loop; R18.4 census of every slice/index of connEventHandler.readBuffer and every store to readStartOff/readEndOff/readBuffer; R18.5 AST equality of build-variant files modulo an allow-list.",
+			"the race-build copy of the dispatcher is analysed with the same rules in every tier (the arm64 configuration in the thorough tier); textual drift between the variant files is reported as an advisory note. NOT decided: exactly-once/in-order as such, EAGAIN/EPOLLOUT races, event boundaries, kernel behaviour.",
+		RuleText: "R18.1 must-held dataflow of the CAS flag Session.writing at every call reaching eventConn.write; R18.2 must-pass-through after each release outside the send loop; R18.3 shape of the accumulator phi of the write loop; R18.4 census of every slice/index of connEventHandler.readBuffer and every store to readStartOff/readEndOff/readBuffer; R18.5 presence of every declaration in both build-variant files (textual drift: advisory note); all rules run on the race configuration too.",
 		Run:      runC18,
+		// the race build has its own copy of the dispatcher: it is analysed with the same rules in every tier
+		QuickConfigs: []BuildConfig{cfgRace},
 	})
 }
 
@@ -521,8 +523,13 @@ func c18Variants(p *P, r *R) {
 				continue
 			}
 			n++
-			r.ob("R18.5", pr.a+" vs "+pr.b+": "+k+" is identical in both build variants", "", fa[k] == fb[k], false,
-				"the variant not compiled by the tests must not drift: every rule of this property is stated on the default variant")
+			// advisory only: both variants are analysed semantically (race in every tier, arm64 in the thorough tier), so a
+			// behaviour-preserving edit of one file must not raise an alarm; textual drift is worth a note for the reviewer.
+			if fa[k] != fb[k] {
+				r.note("R18.5 (advisory): %s differs textually between %s and %s; both variants are checked by R18.1-R18.4 in their own build configuration", k, pr.a, pr.b)
+			}
+			r.ob("R18.5", pr.a+" vs "+pr.b+": "+k+" exists in both build variants", "", fa[k] != "" && fb[k] != "", false,
+				"a function present in only one variant would escape the rules in the other build")
 		}
 		r.count("R18.5", "declarations compared in "+pr.a, n, 1)
 	}
